@@ -945,6 +945,7 @@ static void sc_http(const Case &c) {
   h_cbs = 0;
   h_null = false;
   int variant = 0, conn = 0;
+  bool tls = false;
   size_t blen = 100, limit = 1 << 20;
   for (auto &op : c)
     if (op.k == "http") {
@@ -952,7 +953,12 @@ static void sc_http(const Case &c) {
       conn = (int)(((op.a.size() > 3 ? op.a[3] : 0) % 4 + 4) % 4);  // 0 connects later, 1 connects at once, 2 fails later, 3 fails at once (inside http_request)
       blen = (size_t)std::min<int64_t>(std::max<int64_t>(op.a.size() > 1 ? op.a[1] : 100, 0), 20000);
       if (op.a.size() > 2 && (op.a[2] & 1)) limit = blen;
+      tls = op.a.size() > 4 && (op.a[4] & 1);
     }
+  // over TLS (https_request): the simulated peer does not speak TLS -- the descriptor is not one the TLS library can use -- so the handshake fails
+  // and the request must end with its failure callback; the allocations of https_request, http_request2, the connect and network_ssl_open are all
+  // enumerated
+  s_http_tls(tls ? "www.example.com" : nullptr);
   std::string body = prbytes(77, blen);
   h_wire = variant & 1 ? "HTTP/1.1 100 Continue\r\nX: y\r\n\r\n" : "";
   h_wire += "HTTP/1.1 200 OK\r\nServer: sim\r\nX-Long: " + std::string(200, 'v') + "\r\n";
@@ -1387,7 +1393,8 @@ int main(int argc, char **argv) {
      [](int) {
        return rc::gen::exec([]() {
          Case c;
-         c.push_back(Op("http", {*range<int>(0, 3), *rc::gen::elementOf(std::vector<int64_t>{0, 10, 100, 4096, 5000, 20000}), *range<int>(0, 1), *rc::gen::weightedElement<int>({{3, 0}, {1, 1}, {1, 2}, {2, 3}})}));
+         c.push_back(Op("http", {*range<int>(0, 3), *rc::gen::elementOf(std::vector<int64_t>{0, 10, 100, 4096, 5000, 20000}), *range<int>(0, 1), *rc::gen::weightedElement<int>({{3, 0}, {1, 1}, {1, 2}, {2, 3}}),
+                                 *rc::gen::weightedElement<int>({{3, 0}, {1, 1}})}));
          return c;
        });
      },
